@@ -12,10 +12,12 @@ import sys
 ROOT = os.path.dirname(os.path.dirname(os.path.abspath(__file__)))
 sys.path.insert(0, ROOT)
 CLAIMED = {}
+# only checks the lead has verified on the unchanged tree are claimed (tools/claimed.txt)
+ENABLED = set(open(os.path.join(ROOT, 'tools', 'claimed.txt')).read().split())
 for f in sorted(glob.glob(os.path.join(ROOT, "checks", "C[0-9][0-9].py"))):
     pid = os.path.basename(f)[:-3]
     m = importlib.import_module("checks." + pid)
-    if hasattr(m, "MANIFEST"):
+    if hasattr(m, "MANIFEST") and pid in ENABLED:
         CLAIMED[pid] = m.MANIFEST
 
 NOT_YET = "check not built yet in this round; the TLA+ design for it is in DESIGN.md section 3"
